@@ -18,6 +18,7 @@ pub struct CrdtSession {
     pub enc: Option<TextEncoding>,
     pub files: BTreeMap<String, (Vec<u8>, Vec<(usize, String)>)>,
     pub tx_snapshots: BTreeMap<String, Vec<u8>>,
+    pub tx_state_snapshots: BTreeMap<String, String>,
     pub iso_snap: BTreeMap<String, Vec<ChangeHash>>,
     /// hashes offered to (or made by) each replica so far — for the C05 oracle `crdt.expect`
     pub offered: BTreeMap<String, std::collections::BTreeSet<String>>,
@@ -235,6 +236,8 @@ pub fn exec(s: &mut CrdtSession, toks: &[&str]) -> Vec<String> {
             if d.pending_ops() == 0 && !s.tx_snapshots.contains_key(toks[1]) {
                 let snap = d.clone().save();
                 s.tx_snapshots.insert(toks[1].to_string(), snap);
+                let st = format!("{} keys={:?}", show_doc(d, None, enc), d.keys(ROOT).collect::<Vec<_>>());
+                s.tx_state_snapshots.insert(toks[1].to_string(), st);
             }
         }
         // C03 direct oracle: a call that returns an error changes nothing
@@ -599,6 +602,11 @@ fn exec_inner(s: &mut CrdtSession, toks: &[&str], enc: TextEncoding) -> Vec<Stri
             let d = s.replicas.get_mut(toks[1]).unwrap();
             let n = d.rollback();
             let mut res = vec![format!("{}", n)];
+            // C28 direct oracle: the visible state (all conflict sets, key lists) equals the state before the transaction
+            if let Some(before) = s.tx_state_snapshots.remove(toks[1]) {
+                let now = format!("{} keys={:?}", show_doc(d, None, enc), d.keys(ROOT).collect::<Vec<_>>());
+                if now != before { res.push("! C28 sig=state-differs the visible state after rollback differs from the state before the transaction".to_string()); }
+            }
             // C28 direct oracle: saved bytes equal those before the transaction, and the next change is
             // byte-identical to the one an untouched copy (reloaded from the snapshot) produces
             if let Some(snap) = s.tx_snapshots.remove(toks[1]) {
@@ -621,6 +629,7 @@ fn exec_inner(s: &mut CrdtSession, toks: &[&str], enc: TextEncoding) -> Vec<Stri
         }
         "crdt.commit" => {
             s.tx_snapshots.remove(toks[1]);
+            s.tx_state_snapshots.remove(toks[1]);
             let d = s.replicas.get_mut(toks[1]).unwrap();
             let h = d.commit_with(automerge::transaction::CommitOptions::default().with_time(0));
             // an isolated replica continues from its own commit
@@ -726,6 +735,12 @@ pub fn generate_focus(r: &mut Rng, sess: &mut Session, out: &mut Out) {
                 };
                 exec_line(sess, &line, out);
             }
+            if r.chance(1, 5) {
+                exec_line(sess, &format!("crdt.rollback {}", who), out);
+                exec_line(sess, &format!("crdt.state {}", who), out);
+                out.count("focus_rollbacks");
+                continue;
+            }
             commit(sess, out, who, &mut all);
         }
         // batched deliveries: a replica receives a random multi-change subset in ONE call
@@ -762,9 +777,18 @@ pub fn generate(r: &mut Rng, _opts: &BTreeMap<String, String>, sess: &mut Sessio
     let mut known_objs: Vec<(String, ObjType)> = vec![("_".into(), ObjType::Map)];
     let mut all_changes: Vec<String> = vec![];       // hashes in creation order
     let mut held: BTreeMap<String, Vec<String>> = BTreeMap::new(); // replica -> hashes it has been offered
-    let steps = r.range(8, 30);
+    let steps = if r.chance(1, 5) { r.range(30, 70) } else { r.range(8, 30) };
     for _ in 0..steps {
         let who = names[r.below(names.len() as u64) as usize].clone();
+        // historical read on this replica at one of its own changes (the clock cache and actor-table
+        // changes — forks, rolled-back first transactions — are in play mid-history)
+        if r.chance(1, 6) {
+            let d = sess.crdt.replicas.get_mut(&who).unwrap();
+            if d.pending_ops() == 0 {
+                let own: Vec<String> = d.get_changes(&[]).iter().map(|c| hex::encode(c.hash().0)).collect();
+                if !own.is_empty() { let h = own[r.below(own.len() as u64) as usize].clone(); exec_line(sess, &format!("crdt.state_at {} {}", who, h), out); out.count("mid_history_state_at"); }
+            }
+        }
         match r.below(10) {
             0 if names.len() < nrep => {
                 let n = format!("r{}", names.len());
